@@ -44,6 +44,11 @@ where
         }
     }
     let depth = 2;
+    // quick tier, types with more than 24 units: the right operand's unit ranges over the left one, the reference unit,
+    // the neighbour, the smallest, the largest and one scattered unit instead of all of them
+    let n = b.n();
+    let wide = thorough() || n <= 24;
+    let r0 = b.tm.ref_index().unwrap_or(0);
     let fb_a: Vec<A> = if thorough() { small.clone() } else { vec![amt::parse("1"), amt::parse("17.4")] };
     let fb_b: Vec<A> = vec![amt::parse("1"), amt::parse("0.37")];
     for level in 0..depth {
@@ -51,6 +56,9 @@ where
         for &a in &frontier {
             rep.inc("states");
             for iv in 0..b.n() {
+                if !wide && !(iv == iu || iv == r0 || iv == (iu + 1) % n || iv == 0 || iv == n - 1 || iv == (iu * 7 + 3) % n) {
+                    continue;
+                }
                 // right operands: level 0: V u S u the amounts cancelling / equalling a in v; deeper: the small alphabet
                 let mut bs: Vec<A> = if level == 0 { v_alpha.clone() } else { small.clone() };
                 if level == 0 {
